@@ -9,6 +9,7 @@ Driver glue for C20.  Bytes are hex (`-` = empty).  A `str`/`bytes` argument is 
   `C20 parse <head> <eof> <hex>`           → the reference parser alone
   `C20 run <http11> <head> <connClose> <op> <op> …`
       ops: `sc:<code>:<hex|N>`  `sh:<name>:<value>`  `ah:<name>:<value>`  `w:<hex>`  `f`
+           `sr:<name>:<value>,<value>…` (`-` = no value)  `rm:<name>`
            `ck:<k>:<v>:<expires>:<domain>:<path>:<max_age>:<comment>:<secure>:<httpOnly>:<sameSite>`
       → `errs=<i>:<Class>,… out=<hex> closed=<0|1> parse=<status>/<reason>/<name>:<value>,…/<body> | reject`
 -/
@@ -38,6 +39,10 @@ def decOp (s : String) : Option Op :=
       pure (Op.setCode c m)
   | ["sh", n, v] => do pure (Op.setHeader (← decStr n) (← decStr v))
   | ["ah", n, v] => do pure (Op.addHeader (← decStr n) (← decStr v))
+  | ["sr", n, vs] => do
+      let vals ← if vs = "-" then some [] else (vs.splitOn ",").mapM decStr
+      pure (Op.setRaw (← decStr n) vals)
+  | ["rm", n] => do pure (Op.remove (← decStr n))
   | ["w", d] => (unhex d).map Op.write
   | ["f"] => some Op.finish
   | ["ck", k, v, e, d, p, m, c, sec, ho, ss] => do
